@@ -1,1 +1,483 @@
-fn main() {}
+//! C19 — Maven dependency resolution follows nearest-wins mediation and scope rules.
+//!
+//! The real `maven_dependency_resolver::get_maven_dependencies` is driven through its public async API with an
+//! in-memory `Downloader` that serves generated POM XML (parsed by serde-xml-rs, like the repository's own downloader
+//! does) from several repositories; the futures are polled by a no-op-waker loop. The expectation comes from the
+//! reference resolver in `refres.rs` (written from Maven's documentation). Judged: the resolved list including its
+//! order, the scope and the serving repository of every entry; Display / parsing round trips of coordinates, scopes
+//! and resolved dependencies. See NOTES.md for what is not judged.
+mod gen;
+mod model;
+mod refres;
+
+use common::{par::*, report::{finish, Meta}, *};
+use gen::{gen_universe, GenCfg};
+use maven_dependency_resolver::{coord::MavenCoord, maven_pom::MavenPom, resolver::Resolver as RealRepo, DependencyScope, Downloader, FoundDependency};
+use model::*;
+use refres::{Fault, Found, Opts, TNode, FAULTS};
+use std::collections::{BTreeMap, BTreeSet, HashMap};
+use std::future::Future;
+use std::pin::Pin;
+use std::str::FromStr;
+use std::sync::Mutex;
+use std::task::{Context, Poll};
+
+// ------------------------------------------------------------------------------------------------ driving the real code
+
+fn to_real_scope(s: Scope) -> DependencyScope {
+    match s { Scope::Compile => DependencyScope::Compile, Scope::Runtime => DependencyScope::Runtime, Scope::Test => DependencyScope::Test, Scope::System => DependencyScope::System, Scope::Provided => DependencyScope::Provided }
+}
+fn from_real_scope(s: DependencyScope) -> Scope {
+    match s { DependencyScope::Compile => Scope::Compile, DependencyScope::Runtime => Scope::Runtime, DependencyScope::Test => Scope::Test, DependencyScope::System => Scope::System, DependencyScope::Provided => Scope::Provided }
+}
+fn to_real_coord(c: &Coord) -> MavenCoord {
+    MavenCoord { group: c.group.clone(), artifact: c.artifact.clone(), version: c.version.clone(), classifier: c.classifier.clone(), type_: c.type_.clone() }
+}
+fn from_real_coord(c: &MavenCoord) -> Coord {
+    Coord { group: c.group.clone(), artifact: c.artifact.clone(), version: c.version.clone(), classifier: c.classifier.clone(), type_: c.type_.clone() }
+}
+
+/// A future that is pending `left` times before it hands out its value.
+struct Served { left: u32, out: Option<anyhow::Result<Option<MavenPom>>> }
+impl Future for Served {
+    type Output = anyhow::Result<Option<MavenPom>>;
+    fn poll(mut self: Pin<&mut Self>, cx: &mut Context<'_>) -> Poll<Self::Output> {
+        if self.left > 0 { self.left -= 1; cx.waker().wake_by_ref(); return Poll::Pending; }
+        Poll::Ready(self.out.take().expect("polled after completion"))
+    }
+}
+
+struct MemDownloader { files: HashMap<String, MavenPom>, log: Mutex<Vec<(String, bool)>>, yields: u32 }
+impl Downloader for MemDownloader {
+    fn get_maven_pom(&self, url: &str) -> impl Future<Output = anyhow::Result<Option<MavenPom>>> + Send {
+        let hit = self.files.get(url).cloned();
+        self.log.lock().unwrap().push((url.to_string(), hit.is_some()));
+        let left = if self.yields == 0 { 0 } else { (common::rng::fnv_str(url) % (self.yields as u64 + 1)) as u32 };
+        Served { left, out: Some(Ok(hit)) }
+    }
+}
+
+fn block_on<F: Future>(f: F) -> F::Output {
+    let mut f = std::pin::pin!(f);
+    let mut cx = Context::from_waker(std::task::Waker::noop());
+    let mut polls = 0u64;
+    loop {
+        match f.as_mut().poll(&mut cx) {
+            Poll::Ready(v) => return v,
+            Poll::Pending => { polls += 1; if polls > 200_000_000 { eprintln!("HARNESS-ERROR C19 future still pending after 2e8 polls"); std::process::exit(3); } }
+        }
+    }
+}
+
+fn parse_pom(xml: &str, what: &str) -> MavenPom {
+    match serde_xml_rs::from_str::<MavenPom>(xml) {
+        Ok(p) => p,
+        Err(e) => { eprintln!("HARNESS-ERROR C19 generated POM does not parse as XML ({what}): {e}\n{xml}"); std::process::exit(3) }
+    }
+}
+
+struct RealRun { result: Result<Vec<Found>, String>, root_cause: String, text_problems: Vec<(String, Value)>, requests: usize, misses: usize }
+
+/// Runs the real resolver on the universe.
+fn run_real(u: &Universe, yields: u32) -> Result<RealRun, PanicInfo> {
+    let mut files = HashMap::new();
+    for r in &u.repos { for (g, p) in &r.poms { let url = pom_url(&r.url, g); files.insert(url.clone(), parse_pom(&p.to_xml(), &url)); } }
+    let dl = MemDownloader { files, log: Mutex::new(vec![]), yields };
+    let repos: Vec<RealRepo> = u.repos.iter().map(|r| RealRepo::new(&r.name, &r.url)).collect();
+    let roots: Vec<(MavenCoord, DependencyScope)> = u.roots.iter().map(|(c, s)| (to_real_coord(c), to_real_scope(*s))).collect();
+    let out = guard(|| {
+        let r = block_on(maven_dependency_resolver::get_maven_dependencies(&dl, &repos, &roots));
+        match r {
+            Err(e) => (Err(format!("{e:#}")), e.root_cause().to_string(), vec![]),
+            Ok(list) => {
+                let mut problems = vec![];
+                let found = list.iter().map(|d| {
+                    let f = Found { coord: from_real_coord(&d.coord), scope: from_real_scope(d.scope), repo: u.repos.iter().position(|r| r.name == d.resolver.name && r.url == d.resolver.maven).unwrap_or(usize::MAX) };
+                    check_found_text(d, &mut problems);
+                    f
+                }).collect();
+                (Ok(found), String::new(), problems)
+            }
+        }
+    })?;
+    let log = dl.log.lock().unwrap();
+    Ok(RealRun { result: out.0, root_cause: out.1, text_problems: out.2, requests: log.len(), misses: log.iter().filter(|(_, hit)| !hit).count() })
+}
+
+/// Display / TryFrom<&str> of a resolved dependency, against the documented form
+/// `group:artifact:type[:classifier]:version:scope @ url`.
+fn check_found_text(d: &FoundDependency<'_>, problems: &mut Vec<(String, Value)>) {
+    let text = d.to_string();
+    let c = from_real_coord(&d.coord);
+    let documented = format!("{}:{} @ {}", c.show(), from_real_scope(d.scope).name(), d.resolver.maven);
+    if text != documented { problems.push(("C19 text: Display of a resolved dependency is not the documented form".into(), json!({"displayed": text, "documented_form": documented}))); }
+    match FoundDependency::try_from(text.as_str()) {
+        Err(e) => problems.push(("C19 text: a displayed resolved dependency is rejected by the parser".into(), json!({"displayed": text, "error": format!("{e:#}")}))),
+        Ok(back) => if back.coord != d.coord || back.scope != d.scope || back.resolver.maven != d.resolver.maven {
+            problems.push(("C19 text: a resolved dependency does not survive Display + parsing".into(), json!({"displayed": text, "original": format!("{d:?}"), "parsed_back": format!("{back:?}")})));
+        },
+    }
+}
+
+// ------------------------------------------------------------------------------------------------ judging
+
+fn show_found(u: &Universe, f: &Found) -> String {
+    format!("{}:{} @ {}", f.coord.show(), f.scope.name(), u.repos.get(f.repo).map(|r| r.name.as_str()).unwrap_or("<a repository that was not given>"))
+}
+fn show_list(u: &Universe, l: &[Found]) -> Vec<String> { l.iter().map(|f| show_found(u, f)).collect() }
+
+/// Instance-free description of an error the real resolver gave.
+fn error_template(root_cause: &str) -> String {
+    let cut = root_cause.find(['"', '\'']).unwrap_or(root_cause.len());
+    let mut t: String = root_cause[..cut].chars().filter(|c| !c.is_ascii_digit()).collect();
+    t.truncate(70);
+    t.trim().to_string()
+}
+
+/// Compares the expected with the observed list; returns signatures with a short "where".
+fn judge(exp: &[Found], act: &[Found], tree_keys: &BTreeSet<Key>) -> Vec<(String, String)> {
+    let mut out: Vec<(String, String)> = vec![];
+    if exp == act { return out; }
+    let mut seen = BTreeSet::new();
+    for a in act { if !seen.insert(a.coord.key()) { out.push(("C19 resolve: the list contains one artifact twice".into(), a.coord.show())); break; } }
+    let ek: BTreeMap<Key, &Found> = exp.iter().map(|f| (f.coord.key(), f)).collect();
+    let ak: BTreeMap<Key, &Found> = act.iter().map(|f| (f.coord.key(), f)).collect();
+    for (k, f) in &ek { if !ak.contains_key(k) { out.push(("C19 resolve: an artifact the rules select is missing from the list".into(), f.coord.show())); break; } }
+    for (k, f) in &ak {
+        if !ek.contains_key(k) {
+            let sig = if tree_keys.contains(k) { "C19 resolve: the list has an artifact that only occurs below a discarded rival" } else { "C19 resolve: the list has an artifact the rules cut (optional / non-transitive scope) or that is no dependency at all" };
+            out.push((sig.into(), f.coord.show()));
+            break;
+        }
+    }
+    let mut version = None; let mut scope = None; let mut repo = None;
+    for (k, e) in &ek {
+        if let Some(a) = ak.get(k) {
+            if a.coord.version != e.coord.version { if version.is_none() { version = Some(format!("expected {} observed {}", e.coord.show(), a.coord.show())); } }
+            else if a.scope != e.scope { if scope.is_none() { scope = Some((e.scope, a.scope, e.coord.show())); } }
+            else if a.repo != e.repo && repo.is_none() { repo = Some(e.coord.show()); }
+        }
+    }
+    if let Some(w) = version { out.push(("C19 resolve: another version of an artifact than the nearest / first declared one (or the managed one) is in the list".into(), w)); }
+    if let Some((e, a, w)) = scope { out.push((format!("C19 resolve: scope of an entry differs (expected {}, observed {})", e.name(), a.name()), w)); }
+    if let Some(w) = repo { out.push(("C19 resolve: an entry is attributed to another repository than the first one serving it".into(), w)); }
+    if out.is_empty() { out.push(("C19 resolve: same entries in another order than breadth-first declaration order".into(), String::new())); }
+    out
+}
+
+const SIG_PER_LEVEL: &str = "C19 effective POM: a dependency inherited from a parent is completed from the parent's management only (the child's dependencyManagement is not applied to it)";
+
+// ------------------------------------------------------------------------------------------------ coverage bookkeeping
+
+fn origin_name(o: refres::Origin) -> String {
+    format!("{}.{}", match o.level { 0 => "own", 1 => "parent", _ => "grandparent_or_higher" }, match o.imports { 0 => "declared", 1 => "imported_bom", _ => "bom_imported_by_a_bom" })
+}
+
+fn book(rep: &mut Report, f: &[TNode], med: &refres::Mediated<'_>) {
+    for n in &med.kept {
+        if let (Some(left), Some(e)) = (n.parent_scope, &n.edge) {
+            rep.count(&format!("cell.{}x{}", left.name(), e.scope.unwrap_or(Scope::Compile).name()));
+            rep.count(&format!("declared_by.{}", match e.level { 0 => "own_pom", 1 => "parent", _ => "grandparent_or_higher" }));
+            if let Some(o) = e.version_from { rep.count(&format!("managed_version.{}", origin_name(o))); }
+            if let Some(o) = e.scope_from { rep.count(&format!("managed_scope.{}", origin_name(o))); }
+            if e.scope.is_none() { rep.count("scope.defaulted_to_compile"); }
+        } else { rep.count(&format!("root.{}", n.scope.name())); }
+        for (left, top, optional) in &n.cuts {
+            if *optional { rep.count("cut.optional"); } else { rep.count(&format!("cut.{}x{}", left.name(), top.name())); }
+        }
+        if n.group_inherited { rep.count("inherit.group"); }
+        if n.version_inherited { rep.count("inherit.version"); }
+        if n.repo > 0 { rep.count("repository.not_the_first_one"); }
+        if n.coord.classifier.is_some() { rep.count("coordinate.classifier"); }
+        rep.seen("types", &n.coord.type_);
+        rep.max("max.depth", n.depth as u64);
+    }
+    for l in &med.losses {
+        rep.count(&format!("conflict.loser_at_depth.{}", match l.depth { 1 => "1", 2 => "2", _ => "3_or_more" }));
+        rep.count(if l.winner_depth == l.depth { "conflict.tie_same_depth" } else { "conflict.nearer_wins" });
+        rep.count(if l.same_version { "conflict.same_version" } else { "conflict.other_version" });
+        if l.subtree > 0 { rep.count("conflict.loser_has_subtree"); }
+    }
+    rep.max("max.unmediated_tree", refres::tree_size(f) as u64);
+    rep.max("max.resolved_list", med.kept.len() as u64);
+}
+
+fn fingerprint(med: &refres::Mediated<'_>) -> u64 {
+    let mut ids: BTreeMap<(String, String), usize> = BTreeMap::new();
+    let mut s = String::new();
+    for n in &med.kept {
+        let next = ids.len();
+        let id = *ids.entry((n.coord.group.clone(), n.coord.artifact.clone())).or_insert(next);
+        let e = n.edge.as_ref();
+        s.push_str(&format!("{}:{}:{}:{}{}{}{};", n.depth, n.scope.name(), id, n.coord.type_, e.map(|e| e.level).unwrap_or(9), e.and_then(|e| e.version_from).map(|o| o.level * 3 + o.imports.min(2)).unwrap_or(99), n.cuts.len()));
+    }
+    for l in &med.losses { s.push_str(&format!("L{}:{}:{}:{};", l.depth, l.winner_depth, l.same_version, l.subtree.min(9))); }
+    common::rng::fnv_str(&s)
+}
+
+// ------------------------------------------------------------------------------------------------ one universe
+
+const TREE_BUDGET: usize = 6000;
+
+fn universe_case(rng: &mut Rng, rep: &mut Report, case: u64, thorough: bool) {
+    let size_class = case % 10;
+    let cfg = GenCfg {
+        poms: match size_class { 0 | 1 => (3, 6), 2..=6 => (6, 16), _ => (16, 40) },
+        allow_override: case % 7 == 3,
+        repos: 1 + (case % 3) as usize,
+        cap_pom: 900, cap_total: 2500,
+    };
+    let (u, info) = gen_universe(rng, &cfg);
+    let input = || u.to_json();
+    // ---- expectation
+    let forest = match refres::forest(&u, Opts::TRUE, TREE_BUDGET) {
+        Ok(f) => f,
+        Err(e) if e == "TOO-BIG" => { rep.count("skipped.unmediated_tree_too_big"); return; }
+        Err(e) => { eprintln!("HARNESS-ERROR C19 generated universe does not resolve under the reference rules: {e}\n{}", input()); std::process::exit(3) }
+    };
+    let med = refres::mediate(&forest, None);
+    let exp = refres::found_of(&med.kept);
+    match refres::resolve_lean(&u) {
+        Ok(l) if l == exp => {}
+        other => { eprintln!("HARNESS-ERROR C19 the two formulations of the reference disagree: {other:?} vs {exp:?}\n{}", input()); std::process::exit(3) }
+    }
+    // inputs on which the documentation leaves the precedence open (import vs. ancestor's / later explicit entry)
+    if refres::resolve(&u, Opts::IN_PLACE, TREE_BUDGET).ok().as_ref() != Some(&exp) { rep.count("skipped.open_import_precedence"); return; }
+    rep.eval();
+    rep.count(&format!("universe.poms.{}", match u.pom_count() { 0..=6 => "3-6", 7..=16 => "7-16", _ => "17+" }));
+    rep.count(&format!("universe.repositories.{}", u.repos.len()));
+    rep.count(&format!("universe.roots.{}", u.roots.len().min(4)));
+    if info.decoys > 0 { rep.count("repository.later_one_serves_a_different_file"); }
+    if info.mirrors > 0 { rep.count("repository.later_one_serves_the_same_file"); }
+    if info.missing_cut_targets > 0 { rep.count("cut.target_not_published"); }
+    if info.planted_override { rep.count("override.child_manages_inherited_dependency"); }
+    book(rep, &forest, &med);
+    if !thorough || case % 3 == 0 {
+        for (f, name) in FAULTS { if refres::resolve(&u, Opts::faulty(f), TREE_BUDGET * 4).ok().as_ref() != Some(&exp) { rep.count(&format!("would_expose.{name}")); } }
+    }
+    let per_level = refres::resolve(&u, Opts::PER_LEVEL, TREE_BUDGET * 4);
+    if per_level.as_ref().ok() != Some(&exp) { rep.count("override.changes_the_result"); }
+    let interesting = exp.len() >= 3 && (med.losses.iter().any(|l| !l.same_version) || med.kept.iter().any(|n| n.edge.as_ref().is_some_and(|e| e.version_from.is_some() || e.level > 0)));
+    if interesting { rep.count("nontrivial"); rep.nontrivial(fingerprint(&med)); }
+    // ---- observation
+    let yields = if case % 4 == 1 { 3 } else { 0 };
+    let run = match run_real(&u, yields) {
+        Ok(r) => r,
+        Err(pi) => { rep.violation(format!("C19 panic {}", pi.site()), json!({"panic": pi.message, "input": input(), "expected": show_list(&u, &exp)})); return; }
+    };
+    rep.add("downloads.requests", run.requests as u64);
+    rep.add("downloads.not_found_answers", run.misses as u64);
+    for (sig, d) in run.text_problems { rep.violation(sig, d); }
+    let detail = |w: &str, observed: Value| json!({"where": w, "expected": show_list(&u, &exp), "observed": observed, "input": input()});
+    match &run.result {
+        Ok(act) => {
+            if *act == exp { rep.count("outcome.equal"); }
+            else if per_level.as_ref().ok() == Some(act) { rep.violation(SIG_PER_LEVEL, detail("", json!(show_list(&u, act)))); }
+            else {
+                let mut keys = BTreeSet::new(); refres::all_keys(&forest, &mut keys);
+                for (sig, w) in judge(&exp, act, &keys) { rep.violation(sig, detail(&w, json!(show_list(&u, act)))); }
+            }
+        }
+        Err(msg) => {
+            if per_level.is_err() { rep.violation(SIG_PER_LEVEL, detail("refused", json!({"error": msg}))); }
+            else { rep.violation(format!("C19 resolve: refuses a universe that resolves under the documented rules ({})", error_template(&run.root_cause)), detail("", json!({"error": msg}))); }
+        }
+    }
+    if rep.want_sample() && interesting && u.pom_count() <= 7 && !med.losses.is_empty() {
+        rep.sample(|| json!({"input": input(), "expected": show_list(&u, &exp), "observed": run.result.as_ref().map(|a| show_list(&u, a)).map_err(|e| e.clone()), "requests": run.requests}));
+    }
+}
+
+// ------------------------------------------------------------------------------------------------ text forms
+
+fn word(rng: &mut Rng, first: &[u8], rest: &[u8], max: usize) -> String {
+    let n = 1 + rng.small(max - 1);
+    (0..n).map(|i| *rng.pick(if i == 0 { first } else { rest }) as char).collect()
+}
+
+fn text_case(rng: &mut Rng, rep: &mut Report) {
+    const LOWER: &[u8] = b"abcdefghijklmnopqrstuvwxyz";
+    const ID: &[u8] = b"abcdefghijklmnopqrstuvwxyzABCDEFGHIJKLMNOPQRSTUVWXYZ0123456789_-.";
+    const VER: &[u8] = b"0123456789.-_+~abcdefRCSNAPHOTFinal";
+    const RANGE: &[u8] = b"0123456789.,[]()";
+    let group = (0..1 + rng.below(4)).map(|_| word(rng, LOWER, b"abcdefghijklmnopqrstuvwxyz0123456789_-", 8)).collect::<Vec<_>>().join(".");
+    let artifact = word(rng, ID, ID, 14);
+    let version = if rng.chance(1, 12) { word(rng, b"[(", RANGE, 10) } else if rng.chance(1, 10) { format!("{}-20230713.025619-{}", word(rng, b"0123456789", VER, 6), rng.below(40)) } else { word(rng, b"0123456789v", VER, 12) };
+    let type_ = if rng.chance(1, 2) { "jar".to_string() } else if rng.chance(1, 2) { (*rng.pick(&["pom", "war", "test-jar", "ejb-client", "java-source", "javadoc", "maven-plugin", "bundle", "zip", "tar.gz", "aar"])).to_string() } else { word(rng, LOWER, b"abcdefghijklmnopqrstuvwxyz-.", 8) };
+    let classifier = match rng.below(20) { 0..=9 => None, 10 => Some(String::new()), _ => Some(word(rng, ID, ID, 10)) };
+    let c = Coord { group, artifact, version, classifier, type_ };
+    let real = to_real_coord(&c);
+    rep.eval();
+    rep.count(&format!("text.coord.classifier_{}", match &c.classifier { None => "absent", Some(s) if s.is_empty() => "empty", _ => "present" }));
+    rep.count(if c.type_ == "jar" { "text.coord.type_jar" } else { "text.coord.type_other" });
+    let r = guard(|| {
+        let mut problems: Vec<(String, Value)> = vec![];
+        let shown = real.to_string();
+        if shown != c.show() { problems.push(("C19 text: Display of a coordinate is not the documented form group:artifact:type[:classifier]:version".into(), json!({"coordinate": format!("{real:?}"), "displayed": shown, "documented_form": c.show()}))); }
+        match MavenCoord::from_str(&shown) {
+            Ok(back) if back == real => {}
+            other => problems.push(("C19 text: a coordinate does not survive Display + FromStr".into(), json!({"coordinate": format!("{real:?}"), "displayed": shown, "parsed_back": format!("{other:?}")}))),
+        }
+        // the documented optional parts: `group:artifact[:type[:classifier]]:version`
+        let mut forms = vec![c.show()];
+        if c.classifier.is_none() && c.type_ == "jar" { forms.push(format!("{}:{}:{}", c.group, c.artifact, c.version)); }
+        for f in &forms {
+            match MavenCoord::from_str(f) {
+                Ok(p) if p == real => {}
+                other => problems.push(("C19 text: a documented spelling of a coordinate parses to something else".into(), json!({"text": f, "expected": format!("{real:?}"), "parsed": format!("{other:?}")}))),
+            }
+        }
+        for bad in [format!("{}:{}", c.group, c.artifact), c.group.clone(), format!("{}:extra", c.show()) + if c.classifier.is_some() { "" } else { ":more" }] {
+            if let Ok(p) = MavenCoord::from_str(&bad) { problems.push(("C19 text: a text with too few / too many parts parses as a coordinate".into(), json!({"text": bad, "parsed": format!("{p:?}")}))); }
+        }
+        // resolved dependency
+        let scope = *rng.pick(&Scope::ALL);
+        let url = (*rng.pick(&["https://repo.example.org/maven2", "https://maven.example.com/releases/", "file:///srv/m2/", "http://10.0.0.7:8081/repository/maven-public/"])).to_string();
+        let fd = FoundDependency { resolver: RealRepo::new("some name", &url), coord: real.clone(), scope: to_real_scope(scope) };
+        check_found_text(&fd, &mut problems);
+        problems
+    });
+    match r {
+        Ok(p) => for (sig, d) in p { rep.violation(sig, d); },
+        Err(pi) => rep.violation(format!("C19 panic {}", pi.site()), json!({"panic": pi.message, "coordinate": format!("{real:?}")})),
+    }
+    let mut shape: Vec<char> = c.show().chars().map(|ch| if ch.is_ascii_alphabetic() { 'a' } else if ch.is_ascii_digit() { '0' } else { ch }).collect(); shape.dedup();
+    let shape: String = shape.into_iter().collect();
+    rep.nontrivial(common::rng::fnv_str(&shape));
+}
+
+fn scope_text(rep: &mut Report) {
+    for s in Scope::ALL {
+        rep.eval();
+        let real = to_real_scope(s);
+        if real.to_string() != s.name() { rep.violation("C19 text: Display of a scope is not its Maven name", json!({"scope": format!("{real:?}"), "displayed": real.to_string()})); }
+        match DependencyScope::from_str(s.name()) { Ok(b) if b == real => rep.count("text.scope.round_trip"), other => rep.violation("C19 text: a scope does not survive Display + FromStr", json!({"scope": s.name(), "parsed": format!("{other:?}")})) }
+    }
+    for bad in ["import", "Compile", "", "compile ", "runtime,test"] {
+        rep.eval();
+        if let Ok(p) = DependencyScope::from_str(bad) { rep.violation("C19 text: a word that is no dependency scope parses as one", json!({"text": bad, "parsed": format!("{p:?}")})); } else { rep.count("text.scope.rejected_non_scope"); }
+    }
+}
+
+// ------------------------------------------------------------------------------------------------ self checks
+
+fn bad(s: &str) -> ! { eprintln!("HARNESS-ERROR C19 self-check failed: {s}"); std::process::exit(3) }
+
+fn dep(g: &str, a: &str, v: Option<&str>) -> Decl { Decl { group: g.into(), artifact: a.into(), version: v.map(|s| s.into()), type_: None, classifier: None, scope: None, import: false, optional: None } }
+fn pom(g: &str, a: &str, v: &str, deps: Vec<Decl>) -> (Gav, Pom) {
+    (Gav::new(g, a, v), Pom { group: Some(g.into()), artifact: a.into(), version: Some(v.into()), packaging: None, parent: None, mgmt: vec![], deps, style: 0 })
+}
+fn uni(poms: Vec<(Gav, Pom)>, roots: Vec<(&str, &str, &str, Scope)>) -> Universe {
+    Universe { repos: vec![Repo { name: "r".into(), url: "mem://r".into(), poms: poms.into_iter().collect() }],
+        roots: roots.into_iter().map(|(g, a, v, s)| (Coord { group: g.into(), artifact: a.into(), version: v.into(), classifier: None, type_: "jar".into() }, s)).collect() }
+}
+fn names(l: &[Found]) -> Vec<String> { l.iter().map(|f| format!("{}:{}:{}", f.coord.artifact, f.coord.version, f.scope.name())).collect() }
+
+fn canaries() {
+    let g = "org.example";
+    // --- the documented mediation examples (Introduction to the Dependency Mechanism, "Dependency mediation")
+    let base = |extra_root_dep: Option<Decl>| {
+        let mut a_deps = vec![dep(g, "B", Some("1")), dep(g, "E", Some("1"))];
+        a_deps.extend(extra_root_dep);
+        uni(vec![
+            pom(g, "A", "1", a_deps), pom(g, "B", "1", vec![dep(g, "C", Some("1"))]), pom(g, "C", "1", vec![dep(g, "D", Some("2.0"))]),
+            pom(g, "E", "1", vec![dep(g, "D", Some("1.0"))]), pom(g, "D", "1.0", vec![]), pom(g, "D", "2.0", vec![]),
+        ], vec![(g, "A", "1", Scope::Compile)])
+    };
+    let r = refres::resolve(&base(None), Opts::TRUE, 1000).unwrap_or_else(|e| bad(&e));
+    if names(&r) != ["A:1:compile", "B:1:compile", "E:1:compile", "C:1:compile", "D:1.0:compile"] { bad(&format!("A -> B -> C -> D 2.0 and A -> E -> D 1.0 must give D 1.0, got {:?}", names(&r))); }
+    let r = refres::resolve(&base(Some(dep(g, "D", Some("2.0")))), Opts::TRUE, 1000).unwrap_or_else(|e| bad(&e));
+    if names(&r) != ["A:1:compile", "B:1:compile", "E:1:compile", "D:2.0:compile", "C:1:compile"] { bad(&format!("an explicit dependency on D 2.0 in A must force D 2.0, got {:?}", names(&r))); }
+    let tie = uni(vec![pom(g, "B", "1", vec![dep(g, "C", Some("1.0"))]), pom(g, "D", "1", vec![dep(g, "C", Some("2.0"))]), pom(g, "C", "1.0", vec![]), pom(g, "C", "2.0", vec![])],
+        vec![(g, "B", "1", Scope::Compile), (g, "D", "1", Scope::Runtime)]);
+    let r = refres::resolve(&tie, Opts::TRUE, 1000).unwrap_or_else(|e| bad(&e));
+    if names(&r) != ["B:1:compile", "D:1:runtime", "C:1.0:compile"] { bad(&format!("same depth: first declaration wins, got {:?}", names(&r))); }
+    // the faulty variants must differ on the examples they are about
+    if refres::resolve(&base(None), Opts::faulty(Fault::DepthFirst), 1000).ok().map(|r| names(&r)) == Some(names(&refres::resolve(&base(None), Opts::TRUE, 1000).unwrap())) { bad("depth-first variant equals breadth-first on the documented example"); }
+    if refres::resolve(&tie, Opts::faulty(Fault::LastWinsTie), 1000).map(|r| names(&r)).ok() != Some(vec!["B:1:compile".into(), "D:1:runtime".into(), "C:2.0:runtime".into()]) { bad("last-wins variant"); }
+    // --- the documented management example (project B inherits from A)
+    let m = |a: &str, v: &str, s: Option<Scope>| Decl { scope: s, ..dep("test", a, Some(v)) };
+    let (ga, mut pa) = pom("maven", "A", "1.0", vec![]);
+    pa.packaging = Some("pom".into());
+    pa.mgmt = vec![m("a", "1.2", None), m("b", "1.0", Some(Scope::Compile)), m("c", "1.0", Some(Scope::Compile)), m("d", "1.2", None)];
+    let (gb, mut pb) = pom("maven", "B", "1.0", vec![Decl { scope: Some(Scope::Runtime), ..dep("test", "a", Some("1.0")) }, Decl { scope: Some(Scope::Runtime), ..dep("test", "c", None) }]);
+    pb.parent = Some(ga.clone()); pb.group = None; pb.version = None;
+    pb.mgmt = vec![m("d", "1.0", None)];
+    let lib = |a: &str, v: &str, deps: Vec<Decl>| pom("test", a, v, deps);
+    let u = uni(vec![(ga, pa), (gb, pb), lib("a", "1.0", vec![dep("test", "d", Some("1.2"))]), lib("a", "1.2", vec![]), lib("c", "1.0", vec![]), lib("d", "1.0", vec![]), lib("d", "1.2", vec![])], vec![("maven", "B", "1.0", Scope::Compile)]);
+    let e = refres::Resolver::new(&u, Opts::TRUE).effective(&Gav::new("maven", "B", "1.0")).unwrap_or_else(|e| bad(&e));
+    let shown: Vec<String> = e.deps.iter().map(|d| format!("{}:{}:{:?}", d.coord.artifact, d.coord.version, d.scope.map(|s| s.name()))).collect();
+    if shown != ["a:1.0:Some(\"runtime\")", "c:1.0:Some(\"runtime\")"] || !e.group_inherited || !e.version_inherited { bad(&format!("management example: effective dependencies of B are {shown:?}")); }
+    if e.mgmt.iter().find(|m| m.key.artifact == "d").map(|m| m.version.as_str()) != Some("1.0") { bad("the current POM's managed version must take precedence over its parent's"); }
+    // --- the documented import example: Z imports X then Y, both manage a -> X's version; Z's own entry would win
+    let bom = |a: &str, entries: Vec<Decl>| { let (g, mut p) = pom("maven", a, "1.0", vec![]); p.packaging = Some("pom".into()); p.mgmt = entries; (g, p) };
+    let imp = |a: &str| Decl { type_: Some("pom".into()), import: true, ..dep("maven", a, Some("1.0")) };
+    let (gz, mut pz) = pom("maven", "Z", "1.0", vec![dep("test", "a", None), dep("test", "b", None)]);
+    pz.mgmt = vec![m("b", "3.0", None), imp("X"), imp("Y")];
+    let u = uni(vec![bom("X", vec![m("a", "1.1", None), m("b", "1.0", None)]), bom("Y", vec![m("a", "1.2", None)]), (gz, pz), lib("a", "1.1", vec![]), lib("b", "3.0", vec![])], vec![("maven", "Z", "1.0", Scope::Test)]);
+    for o in [Opts::TRUE, Opts::IN_PLACE, Opts::PER_LEVEL] {
+        let r = refres::resolve(&u, o, 100).unwrap_or_else(|e| bad(&e));
+        if names(&r) != ["Z:1.0:test", "a:1.1:test", "b:3.0:test"] { bad(&format!("import example gives {:?}", names(&r))); }
+    }
+    // --- scope table as printed in the documentation
+    use Scope::*;
+    let table = [(Compile, [Some(Compile), None, Some(Runtime), None]), (Provided, [Some(Provided), None, Some(Provided), None]), (Runtime, [Some(Runtime), None, Some(Runtime), None]), (Test, [Some(Test), None, Some(Test), None])];
+    for (left, row) in table { for (top, want) in [Compile, Provided, Runtime, Test].into_iter().zip(row) { if refres::scope_table(left, top, None) != want { bad("scope table"); } } }
+    // --- the comparison must flag deliberately wrong lists
+    let f = |a: &str, v: &str, s: Scope, r: usize| Found { coord: Coord { group: g.into(), artifact: a.into(), version: v.into(), classifier: None, type_: "jar".into() }, scope: s, repo: r };
+    let exp = vec![f("A", "1", Compile, 0), f("B", "1", Runtime, 0), f("C", "2", Runtime, 1)];
+    let keys: BTreeSet<Key> = [f("X", "1", Compile, 0).coord.key()].into_iter().collect();
+    let sig = |act: Vec<Found>| judge(&exp, &act, &keys).into_iter().map(|(s, _)| s).collect::<Vec<_>>().join(" | ");
+    if !judge(&exp, &exp, &keys).is_empty() { bad("equal lists flagged"); }
+    if !sig(vec![exp[0].clone(), exp[2].clone(), exp[1].clone()]).contains("another order") { bad("order not flagged"); }
+    if !sig(vec![exp[0].clone(), exp[1].clone()]).contains("missing") { bad("missing not flagged"); }
+    if !sig(vec![exp[0].clone(), exp[1].clone(), exp[2].clone(), f("X", "1", Compile, 0)]).contains("below a discarded rival") { bad("extra (discarded) not flagged"); }
+    if !sig(vec![exp[0].clone(), exp[1].clone(), exp[2].clone(), f("Y", "1", Compile, 0)]).contains("the rules cut") { bad("extra (cut) not flagged"); }
+    if !sig(vec![exp[0].clone(), exp[1].clone(), f("C", "3", Runtime, 1)]).contains("another version") { bad("version not flagged"); }
+    if !sig(vec![exp[0].clone(), f("B", "1", Compile, 0), exp[2].clone()]).contains("expected runtime, observed compile") { bad("scope not flagged"); }
+    if !sig(vec![exp[0].clone(), exp[1].clone(), f("C", "2", Runtime, 0)]).contains("another repository") { bad("repository not flagged"); }
+    if !sig(vec![exp[0].clone(), exp[1].clone(), exp[2].clone(), exp[1].clone()]).contains("twice") { bad("duplicate not flagged"); }
+    // --- layout
+    if pom_url("https://h/m2", &Gav::new("org.a.b", "x-y", "1.0")) != "https://h/m2/org/a/b/x-y/1.0/x-y-1.0.pom" || pom_url("https://h/m2/", &Gav::new("g", "a", "2")) != "https://h/m2/g/a/2/a-2.pom" { bad("repository layout"); }
+}
+
+fn main() {
+    let mut ctx = Ctx::from_args("C19", 30, 400);
+    let replay = load_replay(&mut ctx);
+    canaries();
+    let mut rep = Report::new();
+    let thorough = ctx.tier == Tier::Thorough;
+    let n = ctx.tier.pick(10_000, 300_000);
+    run_cases(&ctx, &replay, &mut rep, "universes", n, |rng, rep, i| universe_case(rng, rep, i, thorough));
+    let n_text = ctx.tier.pick(30_000, 600_000);
+    run_cases(&ctx, &replay, &mut rep, "text", n_text, |rng, rep, i| { if i == 0 { scope_text(rep); } text_case(rng, rep) });
+
+    let mut meta = Meta::new("exploration",
+        "acyclic universes of 3-40 POMs (libraries in up to 4 versions, pom-packaged parents in chains of up to 3, BOMs imported by POMs and by BOMs, management at every level, \
+         classifiers/types, optional flags, all scopes, 1-3 repositories with mirrors and decoys, 1-6 roots) resolved by the real get_maven_dependencies and by the reference resolver; \
+         evaluations = universes judged + text round trips; non-trivial universe = resolved list of >= 3 entries with a mediated version conflict or a managed version or an inherited dependency; \
+         distinct = fingerprint of the mediated tree (depth, scope, artifact identity, type, origin of the declaration and of the managed version, cuts, losses)")
+        .assume("POM XML is turned into MavenPom by serde-xml-rs, as the repository's downloader does; XML parsing itself is not judged")
+        .assume("the reference resolver (refres.rs) is a faithful reading of Maven's documented rules for the stated subset; two formulations of it are cross-checked on every case and the documented examples are canaries")
+        .assume("not generated / not judged: interpolation, ranges, exclusions, profiles, re-declared parent dependencies, import vs. ancestor-explicit precedence, explicit entries after a clashing import, <optional> in management, handler-implied classifiers, system-scoped roots with dependencies, unresolvable universes");
+    if ctx.replay.is_none() {
+        let need = |meta: &mut Meta, k: &str, min: u64| meta.oblige(format!("at least {min} observations of {k}"), rep.get(k) >= min);
+        for left in ["compile", "provided", "runtime", "test"] { for top in ["compile", "runtime"] { need(&mut meta, &format!("cell.{left}x{top}"), 10); } }
+        for left in ["compile", "provided", "runtime", "test"] { for top in ["test", "provided", "system"] { need(&mut meta, &format!("cut.{left}x{top}"), 5); } }
+        for k in ["cut.optional", "conflict.loser_at_depth.1", "conflict.loser_at_depth.2", "conflict.loser_at_depth.3_or_more", "conflict.tie_same_depth", "conflict.nearer_wins",
+            "conflict.other_version", "conflict.same_version", "conflict.loser_has_subtree",
+            "managed_version.own.declared", "managed_version.parent.declared", "managed_version.grandparent_or_higher.declared", "managed_version.own.imported_bom", "managed_version.parent.imported_bom",
+            "managed_version.own.bom_imported_by_a_bom", "managed_scope.own.declared", "managed_scope.parent.declared", "managed_scope.own.imported_bom",
+            "declared_by.parent", "declared_by.grandparent_or_higher", "inherit.group", "inherit.version",
+            "repository.not_the_first_one", "repository.later_one_serves_a_different_file", "cut.target_not_published", "coordinate.classifier",
+            "root.compile", "root.runtime", "root.test", "root.provided", "root.system", "override.child_manages_inherited_dependency", "override.changes_the_result",
+            "text.coord.classifier_absent", "text.coord.classifier_present", "text.coord.classifier_empty", "text.coord.type_jar", "text.coord.type_other", "text.scope.round_trip", "text.scope.rejected_non_scope"] {
+            need(&mut meta, k, 5);
+        }
+        for (_, name) in FAULTS { need(&mut meta, &format!("would_expose.{name}"), 20); }
+        need(&mut meta, "nontrivial", 500);
+        meta.oblige("no universe was skipped because the documentation leaves an import precedence open (the generator avoids them)", rep.get("skipped.open_import_precedence") * 50 <= rep.get("cases.universes").max(1));
+        meta.oblige("fewer than 2% of the universes skipped as too big to expand", rep.get("skipped.unmediated_tree_too_big") * 50 <= rep.get("cases.universes").max(1));
+    }
+    std::process::exit(finish(&ctx, rep, meta));
+}
